@@ -254,7 +254,7 @@ int inter_sscanf (svalue_t * arg, svalue_t * s0, svalue_t * s1, int num_arg) {
                       if ((tmp[1] == 'x' || tmp[1] == 'X') &&
                           isxdigit (tmp[2]))
                         break;
-                      tmp += 2;
+                      tmp++; /* (not 2: a '0' at the very end has only the terminator behind it) */
                     }
                 }
               while (*tmp);
